@@ -47,6 +47,16 @@ pub fn sheet_to_txs(
 
     let mut fx_tracker = FxTracker::new();
 
+    // A worksheet without any cell decodes to a range of width zero, whose
+    // rows cannot be iterated (Range::rows chunks by the width and panics on
+    // a chunk size of zero).
+    if sheet.get_size().1 == 0 {
+        return Err(SheetToTxsErr {
+            txs: None,
+            errors: vec![SheetParseError::new(1, format!("Sheet was empty"))],
+        });
+    }
+
     let mut rows = sheet.rows();
 
     let mut reader =
